@@ -118,9 +118,11 @@ def run(r):
     colp = ("param", pn[3])
     for col in COLUMNS:
         from ..rules import inline_new_module_vars as _inmv, rewrite as _rw2, small_rewrites as _small
-        t = fold(s.ret, {colp: const(col)})
+        t = fold(_rw2(strip_all(s.ret), _inmv(r)), {colp: const(col)})
         for _ in range(3):
             t = fold(_rw2(strip_all(t), _small), {})
+        # np.asarray(matrix) is the matrix
+        t = _rw2(t, lambda x: x[2][0] if head(x) == "call" and strip(x[1]) in (("glob", "numpy.asarray"), ("glob", "numpy.array")) and len(x[2]) == 1 and not x[3] else x)
         ctx = RFContext(vec=lambda x: head(strip(x)) == "call" and strip(strip(x)[1]) == ("glob", "rapidfuzz.process.cdist"))
         cd = [x for x in walk(t) if head(x) == "call" and strip(x[1]) == ("glob", "rapidfuzz.process.cdist")]
         chain_attr = "alpha_weight" if col.endswith("A") else "beta_weight"
